@@ -106,6 +106,7 @@ def wait(pid, timeout=120):
 
 _CAL = {}
 _NCOMMIT = {}
+_RETSIZE = {}
 
 
 def calibrate(kind):
@@ -117,6 +118,10 @@ def calibrate(kind):
         rc = wait(fork_writer(kind, path, retlog, count_file=cf), timeout=25)
         dur = time.time() - t0
         n, ncommit = (map(int, open(cf).read().split())) if rc == 0 and os.path.exists(cf) else (0, 0)
+        try:
+            _RETSIZE[kind] = os.path.getsize(retlog)
+        except OSError:
+            _RETSIZE[kind] = 0
         shutil.rmtree(d, ignore_errors=True)
         _CAL[kind] = (n, dur)
         _NCOMMIT[kind] = ncommit
@@ -203,7 +208,24 @@ def run_case(ctx, name, params):
             os.close(w_)
             ready = os.read(r_, 1)            # the store exists and crash points are armed
             delay = params["frac"] * min(max(dur, 0.02), 3.0) * 1.1
-            time.sleep(delay)
+            goal = _RETSIZE.get(kind, 0)
+            if goal >= 200 and params["i"] % 2 == 0:
+                # logical clock instead of wall clock (a loaded machine makes calibrated delays meaningless): SIGKILL as soon as the
+                # writer's log of returned synchronisations has reached the seeded fraction of its calibrated length
+                want = params["frac"] * goal
+                t_end = time.time() + max(20.0, 40 * dur)
+                while time.time() < t_end:
+                    try:
+                        if os.path.getsize(retlog) >= want:
+                            break
+                    except OSError:
+                        pass
+                    if os.waitid(os.P_PID, pid, os.WEXITED | os.WNOHANG | os.WNOWAIT) is not None:
+                        break
+                    time.sleep(0.0003)
+                delay = -1.0
+            else:
+                time.sleep(delay)
             try:
                 os.kill(pid, signal.SIGKILL)
             except ProcessLookupError:
